@@ -4,7 +4,7 @@ import json, os, re, subprocess, sys
 prop, var = sys.argv[1], sys.argv[2]
 wt = f"/tmp/mut3-{prop}" if var in ("e", "f") else (f"/tmp/mut2-{prop}" if var in ("c", "d") else f"/tmp/mut-{prop}")
 d = f"/tmp/mut-out/{prop}/{var}"
-if prop.startswith("A"):
+if prop[0] in "AB" and len(prop) == 2:
     # fourth round: organised by code area
     wt, d = f"/tmp/mut4-{prop}", f"/tmp/mut-out4/{prop}/{var}"
 meta = json.load(open(f"{d}/meta.json"))
